@@ -226,3 +226,15 @@ func lemmaIdentitySeparator(a, b, k []byte) {
 func lemmaIdentitySuccessor(a, k []byte) {
 	lemmaSlashEq(k, a)
 }
+
+// A key that contains a '/' anywhere gets the maximal abbreviated key, i.e. the
+// engine learns nothing from its abbreviation (the bytewise prefix of such a key says
+// nothing about its place in the slash order). Slash-free keys use the bytewise
+// abbreviation, which agrees with the slash order on slash-free keys.
+//
+//@ func AbbreviatedKeyDisableSlash
+//@ property C11
+//@ assume pebble.DefaultComparer != nil && pebble.DefaultComparer.AbbreviatedKey != nil because "package-level variable of pebble, initialised with all its functions and never reassigned"
+//@ ensures (exists i int :: 0 <= i && i < len(key) && old(key[i]) == 47) ==> result == 18446744073709551615
+//@ modifies *
+//@ note the call through pebble.DefaultComparer.AbbreviatedKey (a function value of an external package) is abstracted: arbitrary result, heap treated as changed
